@@ -67,3 +67,38 @@ PROPS['C13'] = dict(
     technique='property-based testing (rapidcheck) against a reference enumeration model; exhaustive over pentagon parents x depth',
     assumptions=['reference hierarchy model in engine/h3ref.hpp'],
 )
+
+PROPS['C06'] = dict(
+    src='props/C06.cpp', variants=['fast', 'asan'], level='exploration',
+    rule=('sets of distinct valid same-resolution cells assembled from building blocks (whole sub-trees 1..4 levels, sibling groups with members missing, complete/incomplete '
+          'pentagon families, isolated cells, sub-trees with one deep cell missing, hexagon groups inside pentagon base cells), de-duplicated and presented permuted / sorted / reversed; '
+          'sizes up to 2.5e3 (quick) / 1e5 (thorough). Complete stratum: every pentagon of res 0..14 x depth 1..3 (complete, reversed, one missing), every res-0 sub-tree. '
+          'non-trivial = some block compacts by >=2 levels or a pentagon family compacts; distinct by the ordered cell list'),
+    quick=dict(cases={'fast': 40_000, 'asan': 6_000}, enum={'fast': 4}),
+    thorough=dict(cases={'fast': 600_000, 'asan': 60_000}, enum={'fast': 8}),
+    strata=dict(quick=['12 pentagons x res 0..14 x family depth 1..3 (complete / reversed / one missing)', '122 res-0 sub-trees at res 1..3'],
+                thorough=['as quick with depth 4', 'whole resolutions 1..4 as one shuffled set']),
+    level_text=('compactCells output compared as a set with a reference canonical compaction on digit strings and checked directly for validity, no-ancestor and no-complete-sibling-set; '
+                'uncompactCellsSize/uncompactCells round trip into exactly sized guarded buffers; E_MEMORY_BOUNDS at capacity |S|-1; E_RES_MISMATCH for coarser targets'),
+    level_note='trusted: engine/h3ref.hpp (parent / children / pentagon predicates, canonical compaction)',
+    technique='property-based testing (rapidcheck): reference-model differential + round trip + invariants; enumeration of pentagon-family strata',
+    assumptions=['reference canonical compaction in engine/h3ref.hpp'],
+)
+
+PROPS['C03'] = dict(
+    src='props/C03.cpp', variants=['fast', 'asan'], level='exploration',
+    rule=('round trip latLngToCell(cellToLatLng(h)) == h on cells from the stress mixture (uniform index, pentagon chains/disks, icosahedron edges, face centres, poles, antimeridian) '
+          'at all 16 res; complete strata: every cell of res 0..4 (0..6 thorough) enumerated by the reference model, k<=6 (30) disks of all pentagons at all res, bands along all 30 '
+          'icosahedron edges res<=5 (8), disks around the 20 face centres at all res; per-base-cell enumeration identity (library children vs all digit strings accepted by the documented '
+          'predicate; count, xor, sum) for res<=5 (7); getNumCells/getPentagons/getRes0Cells identities for all res. '
+          'non-trivial = res>=3 or a cell of a pentagon base cell, or an enumeration identity; distinct by cell / (res, base cell)'),
+    quick=dict(cases={'fast': 3_000_000, 'asan': 300_000}, enum={'fast': 8}),
+    thorough=dict(cases={'fast': 100_000_000, 'asan': 6_000_000}, enum={'fast': 16}),
+    strata=dict(quick=['all cells res 0..4 (round trip)', 'per-base-cell enumeration identity res 0..5', 'k=6 disks of 12 pentagons x 16 res', 'edge bands res 0..5', 'k=3 disks at 20 face centres x 16 res', 'global count identities res 0..15'],
+                thorough=['all cells res 0..6', 'enumeration identity res 0..7', 'k=30 pentagon disks', 'edge bands res 0..8', 'k=8 face-centre disks']),
+    level_text=('centre round trip on every cell of the coarse resolutions and of the pentagon / icosahedron-edge / face-centre neighbourhoods, generated search elsewhere; '
+                'cell counts settled by comparing the library enumeration with an independent enumeration of all indexes the documented layout admits'),
+    level_note='trusted: engine/h3ref.hpp; the fine resolutions are sampled (5.7e14 cells cannot be enumerated)',
+    technique='property-based testing (rapidcheck): round trip + reference-model enumeration differential; exhaustive coarse resolutions and seam neighbourhoods',
+    assumptions=['reference model in engine/h3ref.hpp'],
+)
